@@ -12,6 +12,7 @@ import Acra.Lemmas.Bits
 import Acra.Lemmas.iNET
 import Acra.Lemmas.iNETWalk
 import Acra.Lemmas.iNETFits
+import Acra.Lemmas.ReviewC09Loop
 namespace Acra.Props.C09
 open Acra.Py Acra.Model.iNET Acra.Gen.iNET Acra.Lemmas.Bits Acra.Lemmas.iNET Acra.Lemmas.Walk
 
@@ -357,5 +358,57 @@ example : (unpack fresh (inetHdr 0x10 ++ [0,0,0,1, 0,12, 0,0, 0,0,0,0, 1,2,3,4])
 /-- `iNET_short_iff`, right to left is not idle: on a 36-byte buffer whose package declares 11 bytes the answer is
     `ValueError` too, but the object is changed (the sequence number 1 of the header has been stored) -/
 example : (unpack fresh (inetHdr 0x10 ++ [0,0,0,1, 0,11, 0,0, 0,0,0,0])).1.sequence = 1 := by rfl
+
+/-- what an accepted iNET message returns, package by package (`area` = the bytes after the 24-byte header and the option
+    words): every package object was decoded at some offset `o` of the package area where a complete 12-byte header
+    declaring `d ≥ 12` stands; its `_length` is `d` and its payload exactly `area[o+12 : o+d]` — clamped at the end of the
+    area: nothing that is not in the buffer is returned, but a declared length pointing past the end IS accepted with a
+    shorter payload (observation F2, notes/fti.md) -/
+theorem iNET_accepted_every_package (t : State) (buf : Bytes) (h : (unpack t buf).2 = .ok ()) :
+    ∀ p ∈ (unpack t buf).1.packages, ∃ o,
+      o + 12 ≤ (buf.drop (24 + 4 * declaredWc buf)).length ∧
+      12 ≤ declaredPkgLen ((buf.drop (24 + 4 * declaredWc buf)).drop o) ∧
+      p.length = declaredPkgLen ((buf.drop (24 + 4 * declaredWc buf)).drop o) ∧
+      p.payload = slice ((buf.drop (24 + 4 * declaredWc buf)).drop o) 12
+        (declaredPkgLen ((buf.drop (24 + 4 * declaredWc buf)).drop o)) := by
+  have h24 : ¬ buf.length < 24 := by
+    intro hlt
+    rw [iNET_short_rejected t buf hlt] at h
+    cases h
+  have hh : ∃ ty fl di sq ln ps pn, structUnpackFrom INET_HEADER_FORMAT buf 0 =
+      .ok [beNat (buf.take 1), ty, fl, di, sq, ln, ps, pn] := by
+    simp only [structUnpackFrom, INET_HEADER_FORMAT, Fmt.size, codesSize, Code.size, unpackCodes, decInt, List.drop_zero]
+    have : 0 + (1 + (1 + (2 + (4 + (4 + (4 + (4 + (4 + 0)))))))) ≤ buf.length := by omega
+    simp only [this, if_true]
+    exact ⟨_, _, _, _, _, _, _, rfl⟩
+  obtain ⟨ty, fl, di, sq, ln, ps, pn, hh⟩ := hh
+  revert h
+  simp only [unpack, INET_HEADER_LENGTH, h24, if_false, hh, and_F, declaredWc,
+    Nat.mul_comm (beNat (List.take 1 buf) % 16) 4]
+  split
+  · intro h; cases h
+  · rename_i af _
+    split
+    · rename_i pk hd
+      simp only
+      intro _ p hp
+      have hw := Acra.Lemmas.ReviewC09.decOff_ok_walk _ _ _ _ _ _ hd
+      obtain ⟨o, n, _, _, hdec⟩ := Acra.Lemmas.ReviewC09.walk_mem _ _ _ _ _ hw p hp
+      obtain ⟨hok, _⟩ := (decPkg_walk_step _ _ _ hdec)
+      refine ⟨o, ?_, hok.2, ?_, ?_⟩
+      · have := hok.1
+        simp only [List.length_drop] at this ⊢
+        omega
+      · rw [decPkg, Pkg_unpack_closed Pkg.fresh _ hok.1 hok.2] at hdec
+        simp only [Except.ok.injEq, Prod.mk.injEq] at hdec
+        rw [← hdec.1]; rfl
+      · rw [decPkg, Pkg_unpack_closed Pkg.fresh _ hok.1 hok.2] at hdec
+        simp only [Except.ok.injEq, Prod.mk.injEq] at hdec
+        rw [← hdec.1]; rfl
+    · intro h; cases h
+
+/-- witness: the accepted message with one option word returns one package: `_length` 16, payload the 4 bytes after its header -/
+example : (unpack fresh (inetHdr 0x11 ++ [9,9,9,9] ++ [0,0,0,1, 0,16, 0,0, 0,0,0,2, 1,2,3,4])).1.packages.map
+    (fun p => (p.length, p.payload)) = [(16, [1,2,3,4])] := by rfl
 
 end Acra.Props.C09
